@@ -35,6 +35,11 @@ type Emitter struct {
 	// Abstract: terms for which it returns true are printed as fresh unconstrained constants
 	// (used by dependency queries to cut away the part of a DAG that cannot matter).
 	Abstract func(*Term) bool
+	// ModWrap prints wraps as (mod e r) instead of an explicit quotient: right for scripts in
+	// which every atom is pinned (the solver only has to fold constants).
+	ModWrap bool
+	// Pin prints the listed atoms as literals (ground scripts).
+	Pin func(*Term) *big.Int
 	AtomsSeen   []*Term
 }
 
@@ -185,6 +190,13 @@ func (em *Emitter) define(t *Term, kids []*Term) {
 			em.names[t] = em.names[em.resolve(kids[0])]
 			return
 		}
+		if em.Pin != nil {
+			if v := em.Pin(t); v != nil {
+				em.names[t] = lit(v)
+				em.AtomsSeen = append(em.AtomsSeen, t)
+				return
+			}
+		}
 		em.names[t] = t.Name
 		fmt.Fprintf(&em.sb, "(declare-const %s Int)\n", t.Name)
 		if !em.NoAtomRange {
@@ -206,7 +218,9 @@ func (em *Emitter) define(t *Term, kids []*Term) {
 		if em.Refined && t.RHi != nil {
 			wrap = t.RWrap
 		}
-		if wrap && !em.Lift {
+		if wrap && !em.Lift && em.ModWrap {
+			expr = fmt.Sprintf("(mod %s %s)", expr, R)
+		} else if wrap && !em.Lift {
 			// value = expr mod r, written with an explicit (uniquely determined) quotient: this
 			// is much easier for the solvers than `mod` by a 254-bit constant
 			fmt.Fprintf(&em.sb, "(declare-const %sk%d Int)\n(define-fun %s () Int (- %s (* %sk%d %s)))\n(assert (and (<= 0 %s) (< %s %s)))\n", em.Prefix, t.ID, name, expr, em.Prefix, t.ID, R, name, name, R)
